@@ -184,6 +184,8 @@ def o4(W, ob):
                  'P2PSession::new is reachable with interval 0: ' + dnf_str(g)[:200], where(f, f.blocks[b].term.line))
 
 
+from . import helpers
+
 OBLIGATIONS = [
     ('C09.O1', 'examine before confirm', 'in advance_frame_after_poll no checksum send/compare site is reachable after a call that may reach '
      'set_last_confirmed_frame; both run on every advance while detection is on.', o1),
@@ -192,4 +194,5 @@ OBLIGATIONS = [
     ('C09.O3', 'truthful report and event', 'reported and remembered (frame, checksum) come from one cell; DesyncDetected carries key, remote value and '
      'the local value for that key under their inequality; compared entries are removed.', o3),
     ('C09.O4', 'interval 0 rejected', 'start_p2p_session returns InvalidRequest for DesyncDetection::On{interval: 0} before constructing.', o4),
+    ('C09.H', 'helpers the rules above rely on', 'the bodies of the helpers named by this property\'s rules compute what the rules assume (checksum_report, cell_accessors, saved_state_by_frame); see rules/helpers.py', helpers.bundle('checksum_report', 'cell_accessors', 'saved_state_by_frame')),
 ]
